@@ -496,6 +496,9 @@ func Execute(s *Scenario, dir string) (res *Result) {
 		x.eng = l
 		defer l.Stop()
 		for i, ns := range s.Nodes {
+			if s.DropNode0AfterSync && i == 1 {
+				continue // dials in later, when it lags behind the service's tip (so it is no sync candidate)
+			}
 			if ns.Inbound && (!s.BadFirst || isBad(ns.Kind)) {
 				if _, err := x.nodes[i].DialService("127.0.0.1:"+x.rig.Port, fmt.Sprintf("127.0.0.%d", 10+i)); err != nil {
 					res.Verdict, res.What = "inconclusive", "inbound dial failed: "+err.Error()
@@ -591,6 +594,17 @@ func Execute(s *Scenario, dir string) (res *Result) {
 		}
 	}
 	if s.DropNode0AfterSync && len(x.nodes) > 1 {
+		// a peer that lags behind the (now synced) service dials in: it is no candidate to sync from
+		if _, err := x.nodes[1].DialService("127.0.0.1:"+x.rig.Port, "127.0.0.11"); err != nil {
+			res.Verdict, res.What = "inconclusive", "inbound dial failed: "+err.Error()
+			return
+		}
+		if !x.waitFor(func() bool { return len(x.nodes[1].Live()) > 0 }, 30*time.Second) || !x.quiesce("lagging peer dialled in") {
+			if res.Verdict == "held" {
+				res.Verdict, res.What = "inconclusive", "the lagging inbound peer did not complete its handshake"
+			}
+			return
+		}
 		// the peer the service synced from goes away for good; a peer that lagged behind catches up and carries on
 		x.rig.Refuse(x.nodes[0], true)
 		x.nodes[0].StopAccepting()
@@ -727,6 +741,9 @@ func Execute(s *Scenario, dir string) (res *Result) {
 	x.scenarioSpecificChecks("end")
 	x.collectLocators()
 	res.Counters["messages_logged"] = x.rig.Log.Messages()
+	if os.Getenv("VERIF_SCN_ALWAYSLOG") != "" {
+		res.Events = x.rig.Log.Tail(100000)
+	}
 	if res.Verdict != "held" {
 		if os.Getenv("VERIF_SCN_GOROUTINES") != "" {
 			var sb strings.Builder
